@@ -854,8 +854,7 @@ Section Column.
   Variable cleaf : sty -> dbval -> option dbval.
   Variable pleaf : dbval -> pyval.
   Variable round32 : fval -> fval.      (* environment: DuckDB's CAST of the DECIMAL numeral of f to REAL, read back as a double (a float32 near f, not always the nearest); no hypothesis is needed about it *)
-  Variable lch : chain lact.
-  Variable fch : chain fact.
+  Variable L : pyval -> lit.            (* how a cell is written: cell_lit (createDataFrame) or lit_top (select(lit(v))) *)
   Variable vch : chain vact.
 
   Fixpoint unify (s : nshape) (d : dbval) {struct d} : dbval :=
@@ -896,7 +895,7 @@ Section Column.
 
   (** all cells of one column of one createDataFrame; one failing cell fails the statement *)
   Definition col_pipeline (ty : option sty) (vs : list pyval) : list (option pyval) :=
-    match mapo (eval eleaf) (map (lit_top lch fch) vs) with
+    match mapo (eval eleaf) (map L vs) with
     | None => map (fun _ => None) vs
     | Some ds0 =>
         let ds := map lun ds0 in
@@ -1083,25 +1082,16 @@ Section Unify.
   Qed.
 End Unify.
 
-Fixpoint nanfree (v : pyval) : bool :=
-  match v with
-  | PFloat FNaN => false
-  | PList l => forallb nanfree l
-  | PRow fs => forallb (fun kv => nanfree (snd kv)) fs
-  | _ => true
-  end.
-
-Lemma D0_flt_free : forall v, nanfree v = true -> flt_free (D0 v) = true.
+Lemma D0_flt_free : forall v, flt_free (D0 v) = true.
 Proof.
-  apply (pyval_rect' (fun v => nanfree v = true -> flt_free (D0 v) = true)); try (intros; reflexivity).
-  - intros f H. destruct f as [|n|b e]; [discriminate|reflexivity|destruct e; reflexivity].
-  - intros us tz _. destruct tz; reflexivity.
-  - intros l IH H. cbn [nanfree] in H. cbn [D0 flt_free]. rewrite Forall_forall in IH. rewrite forallb_forall in H.
-    apply forallb_forall. intros y Hy. apply in_map_iff in Hy. destruct Hy as [x [E Hx]]. subst y. apply (IH x Hx (H x Hx)).
-  - intros fs IH H. cbn [nanfree] in H. cbn [D0 flt_free].
-    induction IH as [|[k x] r Hx _ IHr]; [reflexivity|].
-    cbn [forallb snd] in H. apply andb_true_iff in H. destruct H as [H1 H2]. cbn [snd] in Hx.
-    cbn [map_snd forallb snd]. fold (@map_snd ustr _ _ D0). rewrite (Hx H1). exact (IHr H2).
+  apply (pyval_rect' (fun v => flt_free (D0 v) = true)); try (intros; reflexivity).
+  - intros f. destruct f as [|n|b e]; [reflexivity|reflexivity|destruct e; reflexivity].
+  - intros us tz. destruct tz; reflexivity.
+  - intros l IH. cbn [D0 flt_free]. rewrite Forall_forall in IH.
+    apply forallb_forall. intros y Hy. apply in_map_iff in Hy. destruct Hy as [x [E Hx]]. subst y. apply (IH x Hx).
+  - intros fs IH. cbn [D0 flt_free].
+    induction IH as [|[k x] r Hx _ IHr]; [reflexivity|]. cbn [snd] in Hx.
+    cbn [map_snd forallb snd]. fold (@map_snd ustr _ _ D0). rewrite Hx. exact IHr.
 Qed.
 
 Lemma mapo_map {A B C} (f : B -> option C) (g : A -> B) l : mapo f (map g l) = mapo (fun x => f (g x)) l.
@@ -1109,6 +1099,14 @@ Proof. induction l as [|x r IH]; [reflexivity|]. cbn [map mapo]. fold (mapo f). 
 
 Lemma lookup_dn k (gs : list (ustr * dbval)) : lookup k (map_snd dn gs) = option_map dn (lookup k gs).
 Proof. apply lookup_map_snd. Qed.
+
+Lemma std_to_value_not_dec v f : std_to_value v = PDec f -> False.
+Proof.
+  destruct v as [| | | | | | | |us tz|l|l|fs|kv]; cbn [std_to_value]; try discriminate.
+  - destruct l; discriminate.
+  - destruct l; discriminate.
+  - destruct (maplike_of (PDict kv)); discriminate.
+Qed.
 
 Section ColumnRoundtrip.
   Variable eleaf : lit -> option dbval.
@@ -1119,48 +1117,48 @@ Section ColumnRoundtrip.
 
   (** CAST cannot tell a REAL-free engine value from the value's own literal when they agree up to reading
       DECIMAL numerals as DOUBLE *)
-  Lemma cast_equiv : forall v t d, supp v = true -> fits v t = true -> nanfree v = true ->
+  Lemma cast_equiv : forall v t d, supp v = true -> fits v t = true ->
     flt_free d = true -> dn d = dn (D0 v) -> cast cleaf t d = Some (D1 v).
   Proof.
-    apply (pyval_rect' (fun v => forall t d, supp v = true -> fits v t = true -> nanfree v = true ->
+    apply (pyval_rect' (fun v => forall t d, supp v = true -> fits v t = true ->
                                   flt_free d = true -> dn d = dn (D0 v) -> cast cleaf t d = Some (D1 v))).
-    - intros t d _ _ _ _ E. destruct d; try discriminate. destruct t; reflexivity.
-    - intros b t d Hs Hf _ _ E. destruct d; try discriminate. inversion E; subst. exact (cast_nested _ _ _ ENV (PBool b) t Hs Hf).
-    - intros z t d Hs Hf _ _ E. destruct d; try discriminate. inversion E; subst. exact (cast_nested _ _ _ ENV (PInt z) t Hs Hf).
-    - intros f t d Hs Hf Hn _ E. destruct t; try discriminate. destruct f as [|n|b e]; try discriminate.
-      assert (E' : dn d = DDbl (FFin b e)) by (rewrite E; destruct e; reflexivity).
+    - intros t d _ _ _ E. destruct d; try discriminate. destruct t; reflexivity.
+    - intros b t d Hs Hf _ E. destruct d; try discriminate. inversion E; subst. exact (cast_nested _ _ _ ENV (PBool b) t Hs Hf).
+    - intros z t d Hs Hf _ E. destruct d; try discriminate. inversion E; subst. exact (cast_nested _ _ _ ENV (PInt z) t Hs Hf).
+    - intros f t d Hs Hf _ E. destruct t; try discriminate.
+      assert (E' : dn d = DDbl f) by (rewrite E; destruct f as [|n|b e]; [reflexivity|reflexivity|destruct e; reflexivity]).
       destruct d; try discriminate; inversion E'; subst; cbn [cast D1]; [apply (c_dec _ _ _ ENV)|apply (c_dbl _ _ _ ENV)].
-    - intros f t d Hs _ _ _ _. discriminate.
-    - intros s t d Hs Hf _ _ E. destruct d; try discriminate. inversion E; subst. exact (cast_nested _ _ _ ENV (PStr s) t Hs Hf).
-    - intros b t d Hs Hf _ _ E. destruct d; try discriminate. inversion E; subst. exact (cast_nested _ _ _ ENV (PBytes b) t Hs Hf).
-    - intros x t d Hs Hf _ _ E. destruct d; try discriminate. inversion E; subst. exact (cast_nested _ _ _ ENV (PDate x) t Hs Hf).
-    - intros us tz t d Hs Hf _ _ E. destruct tz; destruct d; try discriminate; inversion E; subst;
+    - intros f t d Hs _ _ _. discriminate.
+    - intros s t d Hs Hf _ E. destruct d; try discriminate. inversion E; subst. exact (cast_nested _ _ _ ENV (PStr s) t Hs Hf).
+    - intros b t d Hs Hf _ E. destruct d; try discriminate. inversion E; subst. exact (cast_nested _ _ _ ENV (PBytes b) t Hs Hf).
+    - intros x t d Hs Hf _ E. destruct d; try discriminate. inversion E; subst. exact (cast_nested _ _ _ ENV (PDate x) t Hs Hf).
+    - intros us tz t d Hs Hf _ E. destruct tz; destruct d; try discriminate; inversion E; subst;
         exact (cast_nested _ _ _ ENV (PTs us _) t Hs Hf).
     - (* list *)
-      intros l IH t d Hs Hf Hn Hfl E. destruct t; try discriminate.
+      intros l IH t d Hs Hf Hfl E. destruct t; try discriminate.
       destruct d as [| | | | | | | | | | |xs|]; try discriminate.
       cbn [D0 dn] in E. inversion E as [E']. clear E. rewrite map_map in E'.
-      cbn [fits] in Hf. cbn [supp] in Hs. cbn [nanfree] in Hn. cbn [flt_free] in Hfl. cbn [D1 cast].
+      cbn [fits] in Hf. cbn [supp] in Hs. cbn [flt_free] in Hfl. cbn [D1 cast].
       assert (G : mapo (cast cleaf t) xs = Some (map D1 l)).
       { revert xs E' Hfl. induction IH as [|x r Hx _ IHr]; intros xs E' Hfl.
         - destruct xs; [reflexivity|discriminate].
         - destruct xs as [|y ys]; [discriminate|]. cbn [map] in E'. inversion E' as [[E1 E2]].
-          cbn [forallb] in Hs, Hf, Hn, Hfl.
+          cbn [forallb] in Hs, Hf, Hfl.
           apply andb_true_iff in Hs. destruct Hs as [Hs1 Hs2]. apply andb_true_iff in Hf. destruct Hf as [Hf1 Hf2].
-          apply andb_true_iff in Hn. destruct Hn as [Hn1 Hn2]. apply andb_true_iff in Hfl. destruct Hfl as [Hl1 Hl2].
+          apply andb_true_iff in Hfl. destruct Hfl as [Hl1 Hl2].
           cbn [mapo map]. fold (mapo (cast cleaf t)).
-          rewrite (Hx t y Hs1 Hf1 Hn1 Hl1 E1), (IHr Hs2 Hf2 Hn2 ys E2 Hl2). reflexivity. }
+          rewrite (Hx t y Hs1 Hf1 Hl1 E1), (IHr Hs2 Hf2 ys E2 Hl2). reflexivity. }
       rewrite G. reflexivity.
-    - intros l _ t d Hs _ _ _ _. discriminate.
+    - intros l _ t d Hs _ _ _. discriminate.
     - (* struct *)
-      intros fs IH t d Hs Hf Hn Hfl E.
+      intros fs IH t d Hs Hf Hfl E.
       destruct t as [| | | | | | | | | | | | |ts|]; try discriminate.
       destruct d as [| | | | | | | | | | | |gs]; try discriminate.
       cbn [D0 dn] in E. inversion E as [E']. clear E.
       cbn [supp] in Hs.
       apply andb_true_iff in Hs. destruct Hs as [Hs Hall]. apply andb_true_iff in Hs. destruct Hs as [Hs _].
       apply andb_true_iff in Hs. destruct Hs as [Hne Hnd].
-      cbn [nanfree] in Hn. cbn [flt_free] in Hfl. cbn [D1].
+      cbn [flt_free] in Hfl. cbn [D1].
       assert (Hc : cast cleaf (TStruct ts) (DStruct gs) =
               option_map DStruct ((fix go (ts : list (ustr * sty)) : option (list (ustr * dbval)) :=
                  match ts with
@@ -1191,18 +1189,17 @@ Section ColumnRoundtrip.
                         | None => None
                         end
                     end) ts = Some (map_snd D1 hs)).
-      { rewrite Forall_forall in IH. rewrite forallb_forall in Hall, Hn.
+      { rewrite Forall_forall in IH. rewrite forallb_forall in Hall.
         induction hs as [|[k x] hr IHg]; intros ts0 Hin Hf0.
         - destruct ts0; [reflexivity|discriminate].
         - destruct ts0 as [|[k' t'] tr]; [discriminate|].
           apply andb_true_iff in Hf0. destruct Hf0 as [Hf0 Hrest]. apply andb_true_iff in Hf0. destruct Hf0 as [Hk Hfx].
           apply ueqb_eq in Hk. subst k'.
           destruct (Hin k x (or_introl eq_refl)) as [Hl Hinfs].
-          (* the unified struct has the same keys, and field k agrees with D0 x up to dn *)
           assert (Lk : option_map dn (lookup k gs) = Some (dn (D0 x))).
           { rewrite <- lookup_dn, E', lookup_dn, lookup_map_snd, Hl. reflexivity. }
           destruct (lookup k gs) as [y|] eqn:Ly; [|discriminate]. cbn [option_map] in Lk. inversion Lk as [Ey].
-          rewrite (IH (k, x) Hinfs t' y (Hall (k, x) Hinfs) Hfx (Hn (k, x) Hinfs) (lookup_forallb flt_free k gs y Hfl Ly) Ey).
+          rewrite (IH (k, x) Hinfs t' y (Hall (k, x) Hinfs) Hfx (lookup_forallb flt_free k gs y Hfl Ly) Ey).
           rewrite (IHg tr); [reflexivity| |exact Hrest].
           intros k2 x2 H2. apply Hin. right. exact H2. }
       apply G; [|exact Hf].
@@ -1212,177 +1209,163 @@ Section ColumnRoundtrip.
       destruct Hin as [Hin|Hin].
       + inversion Hin; subst. cbn [lookup]. rewrite ueqb_refl. reflexivity.
       + cbn [lookup]. rewrite (existsb_ueqb_false _ _ _ _ Hn1 Hin). apply IHr; assumption.
-    - intros kv _ t d Hs _ _ _ _. discriminate.
+    - intros kv _ t d Hs _ _ _. discriminate.
   Qed.
 
-  Variable lch : chain lact.
-  Variable fch : chain fact.
+  (** fetch + _to_value of a REAL-free engine value that agrees with the value's own literal up to reading
+      DECIMAL numerals as DOUBLE (no CAST in between): a Decimal anywhere becomes a float *)
+  Lemma client_equiv : forall v d, supp v = true -> flt_free d = true -> dn d = dn (D0 v) ->
+    fix_dec (std_to_value (client pleaf d)) = expected v.
+  Proof.
+    apply (pyval_rect' (fun v => forall d, supp v = true -> flt_free d = true -> dn d = dn (D0 v) ->
+                                  fix_dec (std_to_value (client pleaf d)) = expected v)).
+    - intros d _ _ E. destruct d; try discriminate. cbn. rewrite (p_null _ _ _ ENV). reflexivity.
+    - intros b d _ _ E. destruct d; try discriminate. inversion E; subst. cbn. rewrite (p_bool _ _ _ ENV). reflexivity.
+    - intros z d _ _ E. destruct d; try discriminate. inversion E; subst. cbn. rewrite (p_int _ _ _ ENV). reflexivity.
+    - intros f d _ _ E.
+      assert (E' : dn d = DDbl f) by (rewrite E; destruct f as [|n|b e]; [reflexivity|reflexivity|destruct e; reflexivity]).
+      destruct d; try discriminate; inversion E'; subst; cbn [client];
+        [rewrite (p_dec _ _ _ ENV)|rewrite (p_dbl _ _ _ ENV)]; reflexivity.
+    - intros f d Hs _ _. discriminate.
+    - intros s d _ _ E. destruct d; try discriminate. inversion E; subst. cbn. rewrite (p_str _ _ _ ENV). reflexivity.
+    - intros b d _ _ E. destruct d; try discriminate. inversion E; subst. cbn. rewrite (p_blob _ _ _ ENV). reflexivity.
+    - intros x d _ _ E. destruct d; try discriminate. inversion E; subst. cbn. rewrite (p_date _ _ _ ENV). reflexivity.
+    - intros us tz d _ _ E. destruct tz; destruct d; try discriminate; inversion E; subst; cbn [client];
+        [rewrite (p_tstz _ _ _ ENV)|rewrite (p_ts _ _ _ ENV)]; reflexivity.
+    - (* list *)
+      intros l IH d Hs Hfl E.
+      destruct d as [| | | | | | | | | | |xs|]; try discriminate.
+      cbn [D0 dn] in E. inversion E as [E']. clear E. rewrite map_map in E'.
+      cbn [supp] in Hs. cbn [flt_free] in Hfl. cbn [client expected].
+      assert (G : map (fun x => std_to_value (client pleaf x)) xs = map expected l).
+      { revert xs E' Hfl. induction IH as [|x r Hx _ IHr]; intros xs E' Hfl.
+        - destruct xs; [reflexivity|discriminate].
+        - destruct xs as [|y ys]; [discriminate|]. cbn [map] in E'. inversion E' as [[E1 E2]].
+          cbn [forallb] in Hs, Hfl.
+          apply andb_true_iff in Hs. destruct Hs as [Hs1 Hs2]. apply andb_true_iff in Hfl. destruct Hfl as [Hl1 Hl2].
+          cbn [map]. rewrite (IHr Hs2 ys E2 Hl2). f_equal.
+          pose proof (Hx y Hs1 Hl1 E1) as Hy.
+          (* a Decimal is converted by _to_value itself, so fix_dec has nothing left to do *)
+          destruct (std_to_value (client pleaf y)) eqn:Ev; try exact Hy.
+          exfalso. exact (std_to_value_not_dec _ _ Ev). }
+      destruct xs as [|y ys].
+      + destruct l; [reflexivity|discriminate].
+      + cbn [map std_to_value fix_dec]. rewrite <- G. rewrite map_map. reflexivity.
+    - intros l _ d Hs _ _. discriminate.
+    - (* struct *)
+      intros fs IH d Hs Hfl E.
+      destruct d as [| | | | | | | | | | | |gs]; try discriminate.
+      cbn [D0 dn] in E. inversion E as [E']. clear E.
+      cbn [supp] in Hs.
+      apply andb_true_iff in Hs. destruct Hs as [Hs Hall]. apply andb_true_iff in Hs. destruct Hs as [_ Hkv].
+      apply negb_true_iff in Hkv.
+      cbn [flt_free] in Hfl. cbn [client expected std_to_value].
+      assert (Hk : has_field s_key gs = has_field s_key fs /\ has_field s_value gs = has_field s_value fs).
+      { rewrite <- (has_field_map_snd dn s_key gs), <- (has_field_map_snd dn s_value gs), E', !has_field_map_snd. split; reflexivity. }
+      destruct Hk as [Hk1 Hk2].
+      rewrite maplike_struct_false by (rewrite Hk1, Hk2; exact Hkv).
+      cbn [fix_dec]. f_equal.
+      clear Hkv Hk1 Hk2. revert gs E' Hfl. rewrite forallb_forall in Hall.
+      induction IH as [|[k x] r Hx _ IHr]; intros gs E' Hfl.
+      + destruct gs as [|[k' y] gr]; [reflexivity|cbn in E'; discriminate].
+      + destruct gs as [|[k' y] gr]; [cbn in E'; discriminate|]. cbn [map_snd] in E'.
+        fold (@map_snd ustr _ _ dn) in E'. fold (@map_snd ustr _ _ D0) in E'. inversion E' as [[Ek Ey Er]].
+        cbn [forallb snd] in Hfl. apply andb_true_iff in Hfl. destruct Hfl as [Hl1 Hl2]. cbn [snd] in Hx.
+        cbn [map map_snd fst snd key_name]. fold (@map_snd ustr _ _ expected).
+        rewrite (Hx y (Hall (k, x) (or_introl eq_refl)) Hl1 Ey). f_equal.
+        apply IHr; [intros z Hz; apply Hall; right; exact Hz|exact Er|exact Hl2].
+    - intros kv _ d Hs _ _. discriminate.
+  Qed.
+
+  Variable L : pyval -> lit.
   Variable vch : chain vact.
-  Hypothesis LOK : lit_chain_ok lch = true.
-  Hypothesis FOK : litfn_chain_ok fch = true.
   Hypothesis VOK : tovalue_chain_ok vch = true.
 
-  (** members of a typed column: supported, of the column's type, and -- because of the REAL NaN literal --
-      free of NaN; an infinity only as the whole cell *)
-  Definition col_member (t : sty) (v : pyval) : bool :=
-    supported v && fits v t && nanfree v.
+  (** members of a typed column: supported and of the column's type *)
+  Definition col_member (t : sty) (v : pyval) : bool := supp v && fits v t.
 
-  Lemma eval_top : forall v, supported v = true -> nanfree v = true ->
-    eval eleaf (std_lit_top v) = Some (D0 v).
+  Lemma unified_ok : forall s v, real_free s = true ->
+    flt_free (unify round32 s (lun round32 (D0 v))) = true /\ dn (unify round32 s (lun round32 (D0 v))) = dn (D0 v).
   Proof.
-    intros v Hs Hn. destruct v; try exact (eval_nested _ _ _ ENV _ Hs).
-    destruct f as [|n|b e]; [discriminate| |exact (e_num _ _ _ ENV b e)].
-    cbn [std_lit_top eval D0]. apply (e_str _ _ _ ENV). destruct n; reflexivity.
+    intros s v Hr.
+    pose proof (lun_ok round32 (D0 v) (D0_flt_free v)) as [L1 L2].
+    pose proof (unify_ok round32 (lun round32 (D0 v)) s L1 Hr) as [U1 U2].
+    split; [exact U1|exact (eq_trans U2 L2)].
   Qed.
 
   Lemma finish_member : forall s t v, real_free s = true -> col_member t v = true ->
     finish cleaf pleaf vch (Some t) (unify round32 s (lun round32 (D0 v))) = Some (expected v).
   Proof.
-    intros s t v Hr Hm. unfold col_member in Hm.
-    apply andb_true_iff in Hm. destruct Hm as [Hm Hn]. apply andb_true_iff in Hm. destruct Hm as [Hs Hf].
-    unfold finish.
-    pose proof (lun_ok round32 (D0 v) (D0_flt_free v Hn)) as [L1 L2].
-    pose proof (unify_ok round32 (lun round32 (D0 v)) s L1 Hr) as [U1 U2].
-    destruct v; try (cbn [supported] in Hs;
-      rewrite (cast_equiv _ t _ Hs Hf Hn U1 (eq_trans U2 L2)), (to_value_is_std vch VOK), (client_nested _ _ _ ENV _ Hs),
-              (expected_not_dec _ Hs); reflexivity).
-    destruct t; try discriminate. destruct f as [|n|b e]; [discriminate| |].
-    - cbn [D0 lun unify cast]. rewrite (c_inf _ _ _ ENV). rewrite (to_value_is_std vch VOK). cbn [client].
-      rewrite (p_dbl _ _ _ ENV). reflexivity.
-    - assert (Hs' : supp (PFloat (FFin b e)) = true) by reflexivity.
-      rewrite (cast_equiv _ TDouble _ Hs' Hf Hn U1 (eq_trans U2 L2)). rewrite (to_value_is_std vch VOK). cbn [D1 client].
-      rewrite (p_dbl _ _ _ ENV). reflexivity.
+    intros s t v Hr Hm. unfold col_member in Hm. apply andb_true_iff in Hm. destruct Hm as [Hs Hf].
+    destruct (unified_ok s v Hr) as [U1 U2]. unfold finish.
+    rewrite (cast_equiv _ t _ Hs Hf U1 U2), (to_value_is_std vch VOK), (client_nested _ _ _ ENV _ Hs),
+            (expected_not_dec _ Hs). reflexivity.
   Qed.
 
-  (** column_roundtrip: every cell of a typed column comes back as promised *)
-  Theorem column_roundtrip : forall t vs,
-    forallb (col_member t) vs = true ->
-    col_pipeline eleaf cleaf pleaf round32 lch fch vch (Some t) vs = map (fun v => Some (expected v)) vs.
+  Lemma finish_untyped : forall s v, real_free s = true -> supp v = true ->
+    finish cleaf pleaf vch None (unify round32 s (lun round32 (D0 v))) = Some (expected v).
   Proof.
-    intros t vs H. unfold col_pipeline.
-    assert (Hsn : forall v, In v vs -> supported v = true /\ nanfree v = true /\ col_member t v = true).
-    { rewrite forallb_forall in H. intros v Hv. pose proof (H v Hv) as Hm. unfold col_member in Hm.
-      apply andb_true_iff in Hm. destruct Hm as [Hm Hn]. apply andb_true_iff in Hm. destruct Hm as [Hs _].
-      repeat split; try assumption. exact (H v Hv). }
-    assert (E1 : mapo (eval eleaf) (map (lit_top lch fch) vs) = Some (map D0 vs)).
-    { rewrite mapo_map. clear H. induction vs as [|v r IH]; [reflexivity|].
-      cbn [mapo map]. fold (mapo (fun x => eval eleaf (lit_top lch fch x))).
-      destruct (Hsn v (or_introl eq_refl)) as [Hs [Hn _]].
-      rewrite (lit_top_is_std lch fch LOK FOK), (eval_top v Hs Hn), IH; [reflexivity|].
-      intros y Hy. apply Hsn. right. exact Hy. }
+    intros s v Hr Hs. destruct (unified_ok s v Hr) as [U1 U2]. unfold finish.
+    rewrite (to_value_is_std vch VOK), (client_equiv _ _ Hs U1 U2). reflexivity.
+  Qed.
+
+  (** the common part: every cell is written as its own nested literal, the column is unified, then finished *)
+  Lemma column_generic : forall ty vs,
+    (forall v, In v vs -> supp v = true /\ L v = std_lit_nested v) ->
+    (forall s v, In v vs -> real_free s = true ->
+                 finish cleaf pleaf vch ty (unify round32 s (lun round32 (D0 v))) = Some (expected v)) ->
+    col_pipeline eleaf cleaf pleaf round32 L vch ty vs = map (fun v => Some (expected v)) vs.
+  Proof.
+    intros ty vs Hv Hfin. unfold col_pipeline.
+    assert (E1 : mapo (eval eleaf) (map L vs) = Some (map D0 vs)).
+    { rewrite mapo_map. clear Hfin. induction vs as [|v r IH]; [reflexivity|].
+      cbn [mapo map]. fold (mapo (fun x => eval eleaf (L x))).
+      destruct (Hv v (or_introl eq_refl)) as [Hs El].
+      rewrite El, (eval_nested _ _ _ ENV v Hs), IH; [reflexivity|].
+      intros y Hy. apply Hv. right. exact Hy. }
     rewrite E1. cbv zeta.
     assert (Hr : real_free (col_shape (map (lun round32) (map D0 vs))) = true).
     { apply col_shape_real_free. apply forallb_forall. intros y Hy.
       apply in_map_iff in Hy. destruct Hy as [d [E Hd]]. subst y.
-      apply in_map_iff in Hd. destruct Hd as [v [E Hv]]. subst d.
-      apply (lun_ok round32 (D0 v)). apply D0_flt_free. apply (Hsn v Hv). }
+      apply in_map_iff in Hd. destruct Hd as [v [E Hv']]. subst d.
+      apply (lun_ok round32 (D0 v)). apply D0_flt_free. }
     generalize dependent (col_shape (map (lun round32) (map D0 vs))). intros sh Hr.
-    assert (E2 : forall l, (forall v, In v l -> col_member t v = true) ->
-                 mapo (fun d => finish cleaf pleaf vch (Some t) (unify round32 sh d)) (map (lun round32) (map D0 l))
+    assert (E2 : forall l, (forall v, In v l -> In v vs) ->
+                 mapo (fun d => finish cleaf pleaf vch ty (unify round32 sh d)) (map (lun round32) (map D0 l))
                  = Some (map expected l)).
     { intros l Hl. rewrite map_map, mapo_map. induction l as [|v r IH]; [reflexivity|].
-      cbn [mapo map]. fold (mapo (fun x => finish cleaf pleaf vch (Some t) (unify round32 sh (lun round32 (D0 x))))).
-      rewrite (finish_member sh t v Hr (Hl v (or_introl eq_refl))), IH; [reflexivity|].
+      cbn [mapo map]. fold (mapo (fun x => finish cleaf pleaf vch ty (unify round32 sh (lun round32 (D0 x))))).
+      rewrite (Hfin sh v (Hl v (or_introl eq_refl)) Hr), IH; [reflexivity|].
       intros y Hy. apply Hl. right. exact Hy. }
-    rewrite (E2 vs); [|intros v Hv; apply (Hsn v Hv)].
-    rewrite map_map. reflexivity.
+    rewrite (E2 vs (fun v H => H)). rewrite map_map. reflexivity.
+  Qed.
+
+  (** column_roundtrip: every cell of a typed column comes back as promised *)
+  Theorem column_roundtrip : forall t vs,
+    (forall v, In v vs -> L v = std_lit_nested v) ->
+    forallb (col_member t) vs = true ->
+    col_pipeline eleaf cleaf pleaf round32 L vch (Some t) vs = map (fun v => Some (expected v)) vs.
+  Proof.
+    intros t vs HL H. rewrite forallb_forall in H. apply column_generic.
+    - intros v Hv. pose proof (H v Hv) as Hm. unfold col_member in Hm. apply andb_true_iff in Hm. split; [apply Hm|apply HL; exact Hv].
+    - intros s v Hv Hr. apply finish_member; [exact Hr|apply H; exact Hv].
+  Qed.
+
+  (** a column without a CAST (no value from which a type could be inferred, or select(lit(v))) *)
+  Theorem column_untyped : forall vs,
+    (forall v, In v vs -> L v = std_lit_nested v) ->
+    forallb supp vs = true ->
+    col_pipeline eleaf cleaf pleaf round32 L vch None vs = map (fun v => Some (expected v)) vs.
+  Proof.
+    intros vs HL H. rewrite forallb_forall in H. apply column_generic.
+    - intros v Hv. split; [apply H; exact Hv|apply HL; exact Hv].
+    - intros s v Hv Hr. apply finish_untyped; [exact Hr|apply H; exact Hv].
   Qed.
 End ColumnRoundtrip.
 
-Section ColumnUntyped.
-  Variable eleaf : lit -> option dbval.
-  Variable cleaf : sty -> dbval -> option dbval.
-  Variable pleaf : dbval -> pyval.
-  Variable round32 : fval -> fval.
-  Hypothesis ENV : env_ok eleaf cleaf pleaf.
-  Variable lch : chain lact.
-  Variable fch : chain fact.
-  Variable vch : chain vact.
-  Hypothesis LOK : lit_chain_ok lch = true.
-  Hypothesis FOK : litfn_chain_ok fch = true.
-  Hypothesis VOK : tovalue_chain_ok vch = true.
-
-  Lemma unify_plain : forall v s, plainv v = true -> unify round32 s (D0 v) = D0 v.
-  Proof.
-    apply (pyval_rect' (fun v => forall s, plainv v = true -> unify round32 s (D0 v) = D0 v)); try (intros; reflexivity).
-    - intros f s H. discriminate.
-    - intros f s H. discriminate.
-    - intros us tz s _. destruct tz; reflexivity.
-    - intros l IH s H. cbn [plainv] in H. cbn [D0 unify]. destruct s as [| |s'|]; try reflexivity.
-      f_equal. rewrite map_map. apply map_ext_in. intros x Hx.
-      rewrite Forall_forall in IH. rewrite forallb_forall in H. apply IH; [exact Hx|apply H; exact Hx].
-    - intros fs IH s H. cbn [plainv] in H. apply andb_true_iff in H. destruct H as [_ Hall].
-      cbn [D0 unify]. destruct s as [| | |ss]; try reflexivity. f_equal.
-      rewrite Forall_forall in IH. rewrite forallb_forall in Hall.
-      induction fs as [|[k x] r IHr]; [reflexivity|].
-      cbn [map_snd map fst snd]. fold (@map_snd ustr _ _ D0).
-      rewrite IHr; [|intros y Hy s0 Hp0; apply (IH y (or_intror Hy) s0 Hp0)|intros y Hy; apply (Hall y (or_intror Hy))].
-      f_equal. f_equal. destruct (lookup k ss); [|reflexivity].
-      apply (IH (k, x) (or_introl eq_refl)). apply (Hall (k, x) (or_introl eq_refl)).
-  Qed.
-
-  Lemma lun_plain : forall v, plainv v = true -> lun round32 (D0 v) = D0 v.
-  Proof.
-    apply (pyval_rect' (fun v => plainv v = true -> lun round32 (D0 v) = D0 v)); try (intros; reflexivity).
-    - intros f H. discriminate.
-    - intros us tz _. destruct tz; reflexivity.
-    - intros l IH H. cbn [plainv] in H. cbn [D0 lun]. rewrite Forall_forall in IH. rewrite forallb_forall in H.
-      assert (E : map (lun round32) (map D0 l) = map D0 l).
-      { rewrite map_map. apply map_ext_in. intros x Hx. apply IH; [exact Hx|apply H; exact Hx]. }
-      rewrite E. f_equal. rewrite map_map. apply map_ext_in. intros x Hx. apply unify_plain. apply H. exact Hx.
-    - intros fs IH H. cbn [plainv] in H. apply andb_true_iff in H. destruct H as [_ Hall].
-      cbn [D0 lun]. f_equal. rewrite Forall_forall in IH. rewrite forallb_forall in Hall.
-      induction fs as [|[k x] r IHr]; [reflexivity|].
-      cbn [map_snd]. fold (@map_snd ustr _ _ D0). fold (@map_snd ustr _ _ (lun round32)).
-      pose proof (IH (k, x) (or_introl eq_refl) (Hall (k, x) (or_introl eq_refl))) as Ex. cbn [snd] in Ex. rewrite Ex.
-      f_equal. apply IHr; intros y Hy; [apply IH|apply Hall]; right; exact Hy.
-  Qed.
-
-  (** a column without a CAST (first value None) whose members contain no float at all *)
-  Theorem column_untyped : forall vs,
-    forallb plainv vs = true ->
-    col_pipeline eleaf cleaf pleaf round32 lch fch vch None vs = map (fun v => Some (expected v)) vs.
-  Proof.
-    intros vs H. unfold col_pipeline. rewrite forallb_forall in H.
-    assert (E1 : mapo (eval eleaf) (map (lit_top lch fch) vs) = Some (map D0 vs)).
-    { rewrite mapo_map. induction vs as [|v r IH]; [reflexivity|].
-      cbn [mapo map]. fold (mapo (fun x => eval eleaf (lit_top lch fch x))).
-      pose proof (H v (or_introl eq_refl)) as Hp.
-      rewrite (lit_top_is_std lch fch LOK FOK).
-      assert (Et : std_lit_top v = std_lit_nested v) by (destruct v; try reflexivity; discriminate).
-      rewrite Et, (eval_nested _ _ _ ENV v (plainv_supp v Hp)), IH; [reflexivity|].
-      intros y Hy. apply H. right. exact Hy. }
-    rewrite E1. cbv zeta. generalize (col_shape (map (lun round32) (map D0 vs))). intro sh.
-    assert (E2 : forall l, (forall v, In v l -> plainv v = true) ->
-                 mapo (fun d => finish cleaf pleaf vch None (unify round32 sh d)) (map (lun round32) (map D0 l))
-                 = Some (map expected l)).
-    { intros l Hl. rewrite map_map, mapo_map. induction l as [|v r IH]; [reflexivity|].
-      cbn [mapo map]. fold (mapo (fun x => finish cleaf pleaf vch None (unify round32 sh (lun round32 (D0 x))))).
-      pose proof (Hl v (or_introl eq_refl)) as Hp.
-      unfold finish at 1. rewrite (lun_plain v Hp), (unify_plain v sh Hp), (to_value_is_std vch VOK),
-        (client0_nested _ _ _ ENV v Hp), (expected_not_dec v (plainv_supp v Hp)).
-      rewrite IH; [reflexivity|]. intros y Hy. apply Hl. right. exact Hy. }
-    rewrite (E2 vs H). rewrite map_map. reflexivity.
-  Qed.
-
-  (** select(lit(v)): a column of one value *)
-  Theorem lit_select_roundtrip : forall v,
-    untyped_ok v = true ->
-    col_pipeline eleaf cleaf pleaf round32 lch fch vch None [v] = [Some (expected v)].
-  Proof.
-    intros v H.
-    destruct v; try (apply (column_untyped [_]); cbn [forallb]; cbn [untyped_ok] in H; rewrite H; reflexivity).
-    unfold col_pipeline. cbn [map mapo]. rewrite (lit_top_is_std lch fch LOK FOK).
-    destruct f as [|n|b e]; [| discriminate |].
-    - cbn [std_lit_top std_lit_nested eval]. rewrite (e_nan _ _ _ ENV).
-      cbn [map lun col_shape fold_right shape_of merge unify mapo]. unfold finish.
-      rewrite (to_value_is_std vch VOK). cbn [client]. rewrite (p_flt _ _ _ ENV). reflexivity.
-    - cbn [std_lit_top std_lit_nested convert_leaf eval]. rewrite (e_num _ _ _ ENV).
-      destruct e; cbn [map lun col_shape fold_right shape_of merge unify mapo]; unfold finish;
-        rewrite (to_value_is_std vch VOK); cbn [client];
-        [rewrite (p_dbl _ _ _ ENV)|rewrite (p_dec _ _ _ ENV)]; reflexivity.
-  Qed.
-End ColumnUntyped.
+(** select(lit(v)) writes every supported value as its nested literal, except an infinity (the STRING 'inf') *)
+Definition untyped_ok (v : pyval) : bool :=
+  match v with PFloat (FInf _) => false | _ => supp v end.
 
 (** reference REAL rounding: a table supplied with the case (observed on a raw DuckDB connection: bits of f ->
     bits of CAST(CAST(<numeral of f> AS REAL) AS DOUBLE), and whether its repr uses an exponent) *)
